@@ -868,21 +868,24 @@ class Checker:
 
         knob_names = set()
 
+        def ref_doc():
+            # a full case citation and a later pin-cited reference to one of
+            # its parties: the most state-hungry path of an extraction
+            # (one citation only: with a parallel citation the second lookup of
+            # the same names repairs what the first one lost)
+            for _ in range(50):
+                p1, p2 = tg.name(), tg.name()
+                if p1 != p2 and not ({p1, p2} & knob_names):
+                    break
+            knob_names.update((p1, p2))
+            rep = g.choice(["U.S.", "F.2d", "F. Supp.", "Cal. 3d", "N.E.2d"])
+            t = (f"{tg.words(2).capitalize()} {p1} v. {p2}, {tg.vol()} {rep} {tg.page()} ({tg.year()}). "
+                 f"{p2} at 17; {p1}, supra, at 3. Id. at 4")
+            return t[:300]
+
         def doc():
             if knob:
-                # a full case citation and a later pin-cited reference to one of
-                # its parties: the most state-hungry path of an extraction
-                # (one citation only: with a parallel citation the second lookup of
-                # the same names repairs what the first one lost)
-                for _ in range(50):
-                    p1, p2 = tg.name(), tg.name()
-                    if p1 != p2 and not ({p1, p2} & knob_names):
-                        break
-                knob_names.update((p1, p2))
-                rep = g.choice(["U.S.", "F.2d", "F. Supp.", "Cal. 3d", "N.E.2d"])
-                t = (f"{tg.words(2).capitalize()} {p1} v. {p2}, {tg.vol()} {rep} {tg.page()} ({tg.year()}). "
-                     f"{p2} at 17; {p1}, supra, at 3. Id. at 4")
-                return t[:300]
+                return ref_doc()
             fr = [tg.pick(ties)] if ties and g.random() < 0.5 else None
             # half of the sweep documents exercise the court lookup for sure (its
             # first use in a process is a lazy-initialisation site)
@@ -933,6 +936,10 @@ class Checker:
             a, b = doc(), doc()
             if g.random() < 0.2 and not knob:
                 b = a
+            if not knob and sw["pairs"] % 3 == 1:
+                # the second pair of every run (always completed) also walks the
+                # reference path: full citation, pin-cited reference, supra, id.
+                a = (ref_doc() + "; " + a)[:300]
             x = g.random()
             ma, mb_ = (("markup", "markup") if x < 0.3 else ("plain", "plain") if x < 0.65 else
                        ("ra", "plain") if x < 0.8 else ("markup", "plain") if x < 0.9 else ("plain", "markup"))
